@@ -90,7 +90,12 @@ func dumpDiags(r *report.Report, from int, path string, textLen int) []any {
 				note = note[:300]
 			}
 		}
+		where := ""
+		if sub.Diagnostics[i].Level() == report.ICE {
+			where = iceSite(d.Debug)
+		}
 		out = append(out, map[string]any{
+			"where":  where,
 			"level":  int(sub.Diagnostics[i].Level()),
 			"class":  msgClass(d.Message),
 			"msg":    d.Message,
@@ -100,6 +105,30 @@ func dumpDiags(r *report.Report, from int, path string, textLen int) []any {
 		})
 	}
 	return out
+}
+
+// iceSite names where a recovered panic came from: the first two frames of the stack trace that are
+// functions of this repository (the receiver and closure suffixes are kept, addresses are not).
+func iceSite(debug []string) string {
+	const prefix = "github.com/bufbuild/protocompile/"
+	var frames []string
+	for _, line := range debug {
+		if !strings.HasPrefix(line, prefix) {
+			continue
+		}
+		f := strings.TrimPrefix(line, prefix)
+		if k := strings.LastIndex(f, "("); k > 0 {
+			f = f[:k]
+		}
+		if k := strings.LastIndex(f, "/"); k >= 0 {
+			f = f[k+1:]
+		}
+		frames = append(frames, f)
+		if len(frames) == 2 {
+			break
+		}
+	}
+	return strings.Join(frames, "<")
 }
 
 func dumpTokens(s *token.Stream) []any {
